@@ -59,8 +59,14 @@ CLAIMS = {
              "combinator by combinator, that IF the sub-parsers' translated calls agree with run cfg fuel THEN the translated body "
              "agrees with run cfg (fuel+1) on the combinator node, under an explicit relation between the model state and the "
              "translated Context (call count, error, cache). 53 semantic edits tried in scratch copies each break a tie theorem, 29 "
-             "equivalent rewrites do not. Not yet proved: the closed-world composition (a world built by recursion on fuel from the "
-             "translated closures); terminals and the reader are handles / world functions there (the reader's own tie is C10P). "
+             "equivalent rewrites do not. THE CLOSED WORLD (Props/C01Q.lean): gWorld cfg root, a world built by recursion on fuel in "
+             "which every parser handle runs the TRANSLATED closure of its combinator over the previous level (terminals and the "
+             "reader are the only leaves taken from the model - their ties are C08 / C10P), agrees with run on EVERY closed grammar "
+             "at every fuel (c01q_closed_world: all constructors of G; closedness - no ref past the environment - is necessary: "
+             "c01q_dangling_ref) and the translated Parse agrees with parse (c01q_parse). Model theorems thereby become theorems "
+             "about the mechanically translated program, stated over the translated Parse only: never a Go panic (c01q_no_panic), "
+             "node xor error (c01q_xor), termination for certified grammars (c01q_terminates), fuel monotonicity, soundness "
+             "(c01q_sound: every returned tree is a derivation); instance: the arithmetic grammar on every input (c01q_arith). "
              "Derives is the monotone reading (Choice as Any, repetitions may stop wherever lenCheck allows): soundness is claimed against "
              "it. TermGood (terminals return well-positioned leaves) is proved of the built-in terminals by C08 (c08_termGood). A "
              "sequence stops enumerating after an alternative whose last node has token EOF: completeness is stated below the Sentence wrapper.",
